@@ -9,12 +9,13 @@ namespace occa {
     buffer::buffer(modeDevice_t *modeDevice_,
                    udim_t size_,
                    const occa::json &properties_) :
-      occa::modeBuffer_t(modeDevice_, size_, properties_) {}
+      occa::modeBuffer_t(modeDevice_, size_, properties_),
+      hostPtr(false) {}
 
     buffer::~buffer() {
 
       if (!isWrapped && ptr) {
-        if (properties.get("use_host_pointer", false)) {
+        if (hostPtr) {
           if (properties.get("own_host_pointer", false)) {
             sys::free(ptr);
           }
@@ -37,6 +38,15 @@ namespace occa {
       isWrapped = true;
     }
 
+    void buffer::useHostPointer(const void *ptr_,
+                                const udim_t bytes) {
+      // Not "wrapped": device::malloc counts these bytes in bytesAllocated,
+      // so ~modeBuffer_t has to subtract them again
+      ptr = (char*) const_cast<void*>(ptr_);
+      size = bytes;
+      hostPtr = true;
+    }
+
     modeMemory_t* buffer::slice(const dim_t offset,
                                 const udim_t bytes) {
       return new serial::memory(this, bytes, offset);
@@ -46,6 +56,7 @@ namespace occa {
       ptr = NULL;
       size = 0;
       isWrapped = false;
+      hostPtr = false;
     }
   }
 }
